@@ -66,7 +66,11 @@ def gen_line(rng):
                         '{"schema_version":-1,"recorded_at":"x","machine_id":"m","event":{}}',
                         '{"schema_version":4294967296,"recorded_at":"x","machine_id":"m","event":{}}',
                         '{"schema_version":1,"recorded_at":"x","machine_id":"m","event":{}} trailing',
-                        '\u00a0{', '{"schema_version":1.0,"recorded_at":"x","machine_id":"m","event":{}}'])
+                        '\u00a0{', '{"schema_version":1.0,"recorded_at":"x","machine_id":"m","event":{}}']
+                       # long torn records made of multi-byte text at several byte alignments (anything that slices or
+                       # truncates a bad line for a message must do so on character boundaries)
+                       + [('x' * sh) + '{"schema_version":1,"recorded_at":"2026-01-01T00:00:00Z","machine_id":"m1","module_id":"' + ch * n
+                          for sh in (0, 1, 2) for ch, n in (('\u6f22', 60), ('\u00e9', 90), ('\U0001f600', 40))])
         pad = rng.choice(['', ' ', '\t', '  '])
         t = pad + t + rng.choice(['', ' ', '\r'])
         return t.encode('utf-8'), 'RText %s None' % cq.cstr(t), 'malformed'
